@@ -32,8 +32,15 @@ use core::cell::UnsafeCell;
 use core::fmt;
 use core::ops::{Deref, DerefMut};
 use core::ptr::NonNull;
+#[cfg(not(tiny_std_verif))]
 use core::sync::atomic::AtomicU32;
+#[cfg(not(tiny_std_verif))]
 use core::sync::atomic::Ordering::{Acquire, Relaxed, Release};
+#[cfg(tiny_std_verif)]
+use sc::verif::{
+    AtomicU32,
+    Ordering::{Acquire, Relaxed, Release},
+};
 use rusl::futex::futex_wake;
 
 pub struct RwLock<T: ?Sized> {
